@@ -87,9 +87,12 @@ def after_run() -> None:
     import gc
 
     _runs_done += 1
-    gc.collect()
-    if _runs_done == 3:
+    if _runs_done % 50 == 3:
+        gc.collect()
         gc.freeze()
+    else:
+        # automatic GC is off, so everything the run allocated is still in the youngest generation
+        gc.collect(0)
 
 
 def run_chunk(args: tuple) -> dict:
@@ -137,6 +140,7 @@ def run_chunk(args: tuple) -> dict:
             }
             break
     agg['wall'] = time.time() - t0
+    agg['wall_by_sub'][sub] += agg['wall']
     agg['pid'] = os.getpid()
     return agg
 
@@ -173,6 +177,7 @@ def new_agg() -> dict:
         'bad': None,
         'cut_short': 0,
         'wall': 0.0,
+        'wall_by_sub': Counter(),
     }
 
 
@@ -203,7 +208,7 @@ def merge_agg(total: dict, part: dict) -> None:
         total[key] += part[key]
     total['sim_seconds'] += part['sim_seconds']
     total['wall'] += part['wall']
-    for key in ('by_sub', 'by_world', 'probes', 'faults', 'runs_with_fault'):
+    for key in ('by_sub', 'by_world', 'probes', 'faults', 'runs_with_fault', 'wall_by_sub'):
         total[key].update(part[key])
     for key in ('interleavings', 'nontrivial', 'states'):
         total[key] |= part[key]
